@@ -3,7 +3,7 @@ CONSTANTS
   N = 4
   Gated = TRUE
   Locked = TRUE
-  KindSet = {"L", "P", "E", "R"}
+  KindSet = {"L", "P", "E", "R", "F"}
 INVARIANTS
   Serialisable
   MutualExclusion
